@@ -123,6 +123,18 @@ Example c20_example_sinks :
     s_log sk = [[114; 101; 97; 100; 32; 120; 46; 104; 53]].
 Proof. eexists. vm_compute. repeat split; reflexivity. Qed.
 
+(* F18: sanitising is word by word, but each replacement is a str.replace over the whole text.
+   When an earlier word (a relative path that exists) also occurs inside a later word (the same
+   file by its absolute path), the later word is rewritten in passing and is no longer found
+   by its own replacement: its absolute directory stays in the output, although each of the
+   two words on its own is sanitised *)
+Theorem c20_cross_word_replacement_refuted :
+  sanitize_str (ex_of HOST18) (resolve_of []) P_SRC T_BOTH = SOk T_OUT18 /\ leaks (ex_of HOST18) T_OUT18 /\
+  sanitize_str (ex_of HOST18) (resolve_of []) P_SRC T_REL = SOk [120; 46; 104; 53] /\
+  sanitize_str (ex_of HOST18) (resolve_of []) P_SRC T_ABS = SOk [120; 46; 104; 53].
+Proof. exact cross_word_replacement_leaks. Qed.
+Print Assumptions c20_cross_word_replacement_refuted.
+
 (* the hypothesis asked of `resolve` in c20_word_sound_partial / c20_replacement_text is met by
    the resolver used in every example above (and by any table of well-formed targets) *)
 Example c20_resolve_hypothesis_satisfiable : forall p, wf_path p -> wf_path (resolve_of [] p).
